@@ -83,6 +83,7 @@ class PrintedTree:
 
 class PrintFaithful(SxContract):
     fn = "gemclus.tree.kauri.print_kauri_tree"
+    boundaries = True       # <= versus <: points ON a threshold / cut are part of the contract, not a measure-zero set
     safety = False
 
     def __init__(self, seq, feats, d, names):
